@@ -142,44 +142,49 @@ Proof.
   unfold fz_def, size_fdef. rewrite fz0_size. lia.
 Qed.
 
-(* the number of typed occurrences is at most twice the node count *)
-Lemma tocc_len : forall t, len (tocc t) <= 2 * size_fterm t.
+(* the number of typed occurrences is at most the node count *)
+Lemma occ_arg_len : forall y, len (tocc y) <= size_fterm y -> len (occ_arg y) <= size_fterm y.
 Proof.
-  induction t using fterm_ind'; cbn [tocc size_fterm]; rewrite ?len_app.
-  - unfold occ_var. destruct ty as [ty0|]; [|rewrite len_nil; lia]. destruct chi as [[|]|]; rewrite ?len_cons, ?len_nil; lia.
+  intros y H. unfold occ_arg, occ_arg_with. destruct y; try exact H. destruct chi as [[|]|]; try exact H.
+  unfold occ_cns. destruct ty; cbn [size_fterm]; rewrite ?len_cons, ?len_nil; lia.
+Qed.
+Lemma tocc_len : forall t, len (tocc t) <= size_fterm t.
+Proof.
+  induction t using fterm_ind'; cbn [tocc size_fterm]; fold occ_arg; rewrite ?len_app.
+  - unfold occ_prd. destruct ty as [ty0|]; rewrite ?len_cons, ?len_nil; lia.
   - rewrite len_nil. lia.
   - lia.
   - destruct b as [b'|]; [simpl in H|rewrite len_nil]; lia.
   - lia.
   - lia.
-  - assert (G : len (flat_map tocc args) <= 2 * (fix go (l : list fterm) : N := match l with [] => 0 | y :: r => size_fterm y + go r end) args).
-    { induction H as [|y r Hy Hr IH]; [cbn [flat_map]; rewrite len_nil; lia|]. cbn [flat_map]. rewrite len_app. lia. }
+  - assert (G : len (flat_map occ_arg args) <= (fix go (l : list fterm) : N := match l with [] => 0 | y :: r => size_fterm y + go r end) args).
+    { induction H as [|y r Hy Hr IH]; [cbn [flat_map]; rewrite len_nil; lia|]. cbn [flat_map]. rewrite len_app. pose proof (occ_arg_len y Hy). lia. }
     lia.
-  - assert (G : len (flat_map tocc args) <= 2 * (fix go (l : list fterm) : N := match l with [] => 0 | y :: r => size_fterm y + go r end) args).
-    { induction H as [|y r Hy Hr IH]; [cbn [flat_map]; rewrite len_nil; lia|]. cbn [flat_map]. rewrite len_app. lia. }
+  - assert (G : len (flat_map occ_arg args) <= (fix go (l : list fterm) : N := match l with [] => 0 | y :: r => size_fterm y + go r end) args).
+    { induction H as [|y r Hy Hr IH]; [cbn [flat_map]; rewrite len_nil; lia|]. cbn [flat_map]. rewrite len_app. pose proof (occ_arg_len y Hy). lia. }
     lia.
-  - assert (G : len (flat_map tocc args) <= 2 * (fix go (l : list fterm) : N := match l with [] => 0 | y :: r => size_fterm y + go r end) args).
-    { induction H as [|y r Hy Hr IH]; [cbn [flat_map]; rewrite len_nil; lia|]. cbn [flat_map]. rewrite len_app. lia. }
+  - assert (G : len (flat_map occ_arg args) <= (fix go (l : list fterm) : N := match l with [] => 0 | y :: r => size_fterm y + go r end) args).
+    { induction H as [|y r Hy Hr IH]; [cbn [flat_map]; rewrite len_nil; lia|]. cbn [flat_map]. rewrite len_app. pose proof (occ_arg_len y Hy). lia. }
     lia.
   - assert (G : len (flat_map (fun c => match c with FClause _ _ _ _ body => tocc body end) cls) <=
-                2 * (fix go (l : list fclause) : N := match l with [] => 0 | y :: r => size_fclause y + go r end) cls).
+                (fix go (l : list fclause) : N := match l with [] => 0 | y :: r => size_fclause y + go r end) cls).
     { induction H as [|y r Hy Hr IH]; [cbn [flat_map]; rewrite len_nil; lia|]. cbn [flat_map]. rewrite len_app.
       destruct y as [pl x names ctx body]. cbn [clause_body size_fclause] in *. lia. }
     lia.
   - assert (G : len (flat_map (fun c => match c with FClause _ _ _ _ body => tocc body end) cls) <=
-                2 * (fix go (l : list fclause) : N := match l with [] => 0 | y :: r => size_fclause y + go r end) cls).
+                (fix go (l : list fclause) : N := match l with [] => 0 | y :: r => size_fclause y + go r end) cls).
     { induction H as [|y r Hy Hr IH]; [cbn [flat_map]; rewrite len_nil; lia|]. cbn [flat_map]. rewrite len_app.
       destruct y as [pl x names ctx body]. cbn [clause_body size_fclause] in *. lia. }
     lia.
   - lia.
-  - unfold occ_goto. destruct (fterm_type t); rewrite ?len_cons, ?len_nil; lia.
+  - unfold occ_goto, occ_cns. destruct (fterm_type t); rewrite ?len_cons, ?len_nil; lia.
   - lia.
   - lia.
 Qed.
-Lemma fun_occ_le_size : forall p, fun_occ p <= 2 * size_fcprog p.
+Lemma fun_occ_le_size : forall p, fun_occ p <= size_fcprog p.
 Proof.
   intros p. rewrite <- fz0_prog. unfold fun_occ, fz_prog. induction (fcpdefs p) as [|d r IH]; [cbn; lia|].
-  cbn [map fold_right nsum]. assert (fun_occ_def d <= 2 * fz_def 0 d); [|lia].
+  cbn [map fold_right nsum]. assert (fun_occ_def d <= fz_def 0 d); [|lia].
   unfold fun_occ_def, fz_def. rewrite fz0_size. pose proof (bdedup_len (tocc (fdbody d))). pose proof (tocc_len (fdbody d)). lia.
 Qed.
 
@@ -197,7 +202,7 @@ Proof.
   apply N.mul_le_mono_l. unfold f2c_factor. lia.
 Qed.
 Theorem fun2core_size_quadratic : forall p c, compile_prog p = Ok c ->
-  size_cprog c <= size_fcprog p * (10 + 4 * size_fcprog p).
+  size_cprog c <= size_fcprog p * (10 + 2 * size_fcprog p).
 Proof.
   intros p c H. eapply N.le_trans; [apply fun2core_size_nodes; exact H|].
   apply N.mul_le_mono_l. pose proof (fun_occ_le_size p). lia.
@@ -206,3 +211,33 @@ Lemma f2c_bound_nodes_eq : forall p, f2c_bound_nodes p = size_fcprog p * (10 + 2
 Proof. intros. unfold f2c_bound_nodes, f2c_factor. f_equal. lia. Qed.
 Lemma f2c_bound_weighted_eq : forall p, f2c_bound_weighted p = f_wprog p * (12 + 3 * fun_occ p).
 Proof. intros. unfold f2c_bound_weighted, f2c_factor. f_equal. lia. Qed.
+
+(* ---------- scoped programs: occurrences <= typed binders ---------- *)
+Lemma bdedup_NoDup : forall l, NoDup (bdedup l).
+Proof.
+  induction l as [|y r IH]; cbn [bdedup]; [constructor|].
+  destruct (existsb (cbinding_eqb y) r) eqn:E; [exact IH|]. constructor; [|exact IH].
+  intros H. apply (proj1 (bdedup_In _ _)) in H. assert (existsb (cbinding_eqb y) r = true); [|congruence].
+  apply existsb_exists. exists y. split; [exact H | apply cbinding_eqb_eq; reflexivity].
+Qed.
+Lemma occ_scoped_def_le : forall d, occ_scoped_def d = true -> fun_occ_def d <= len (def_tb d).
+Proof.
+  intros d H. unfold fun_occ_def, len.
+  assert (List.length (bdedup (tocc (fdbody d))) <= List.length (def_tb d))%nat; [|lia].
+  apply NoDup_incl_length; [apply bdedup_NoDup|]. intros b Hb. apply (proj1 (bdedup_In _ _)) in Hb.
+  unfold occ_scoped_def in H. rewrite forallb_forall in H. specialize (H b Hb).
+  apply existsb_exists in H. destruct H as [b' [Hin E]]. apply cbinding_eqb_eq in E. subst b'. exact Hin.
+Qed.
+Lemma occ_scoped_le : forall p, occ_scoped p = true -> fun_occ p <= fun_tb p.
+Proof.
+  intros p H. unfold occ_scoped in H. unfold fun_occ, fun_tb. induction (fcpdefs p) as [|d r IH]; [cbn; lia|].
+  cbn [forallb] in H. apply andb_true_iff in H as [H1 H2]. cbn [map fold_right].
+  pose proof (occ_scoped_def_le d H1). specialize (IH H2). lia.
+Qed.
+Theorem fun2core_size_scoped : forall p c, compile_prog p = Ok c -> occ_scoped p = true ->
+  size_cprog c <= size_fcprog p * (10 + 2 * fun_tb p) /\ c_wprog c <= f_wprog p * (12 + 3 * fun_tb p).
+Proof.
+  intros p c H S. pose proof (occ_scoped_le p S) as L. split.
+  - eapply N.le_trans; [apply fun2core_size_nodes; exact H|]. apply N.mul_le_mono_l. lia.
+  - eapply N.le_trans; [apply fun2core_size_weighted; exact H|]. apply N.mul_le_mono_l. lia.
+Qed.
